@@ -13,16 +13,21 @@ RULE = ('histories of register / unregister / set_target_info over collectors dr
         '(x, x_total, x_sum, x_bucket, x_created, x_info, x_count, x_gsum, x_gcount, target, target_info x 8 family types, '
         'with units): custom collectors with describe(), without describe(), describing other families than they '
         'collect, describing one name twice; built-in Counter/Gauge/Summary/Histogram/Info/Enum registering themselves '
-        'in their constructor; auto_describe on and off; target info at construction and by set_target_info. '
+        'in their constructor; auto_describe on and off; target info at construction and by set_target_info; '
+        'collectors that CHANGE what they describe / collect in the middle of a history (op mut), created series '
+        'switched off and on in the middle of a history (op created: disable_created_metrics / enable_created_metrics) '
+        'and switched off from the start through PROMETHEUS_DISABLE_CREATED_SERIES in a child interpreter. '
         'Exhaustive: every history of length <= 3 over 14 ops (6 collectors) for 5 fixed collector sets, length 4 over 4 '
         'collectors; then seeded random histories up to length 40.  Non-trivial = at least one rejected call and one '
         'successful unregister, or a rejected call followed by a success of the same collector; distinct by case')
 TRUSTED = ['CPython dict insertion order and set semantics (modelled as association lists)',
-           'collector objects are abstracted to (describe() result, collect() result); they do not change during a history']
+           'collector objects are abstracted to (describe() result, collect() result), re-read after every step that can '
+           'change them; the names a collector claims are those of the family types it described when it was registered, '
+           '_created included whether or not created series are exported']
 ASSUMPTIONS = ['claimed names follow the OpenMetrics suffix table of the property statement (counter: _total,_created; '
                'summary: _sum,_count,_created; histogram: _bucket,_sum,_count,_created; gaugehistogram: _bucket,_gsum,_gcount; '
                'info: _info); a collector without describe() claims names only under auto_describe']
-TIME_BUDGET = {'quick': 100, 'thorough': 900}
+TIME_BUDGET = {'quick': 120, 'thorough': 900}
 
 TYPES = ['counter', 'gauge', 'summary', 'histogram', 'gaugehistogram', 'unknown', 'info', 'stateset']
 # the property statement's table (independent of registry.py)
@@ -101,10 +106,14 @@ def canon_family(m):
 
 
 class Custom:
-    """A collector without describe()."""
+    """A collector without describe(); behaviours = [(describe result or None, families)], switched by op mut."""
 
-    def __init__(self, cid, fams, log):
-        self.cid, self.fams, self.log = cid, fams, log
+    def __init__(self, cid, behaviours, log):
+        self.cid, self.behaviours, self.log = cid, behaviours, log
+        self.desc, self.fams = behaviours[0]
+
+    def switch(self, k):
+        self.desc, self.fams = self.behaviours[k % len(self.behaviours)]
 
     def collect(self):
         self.log.append(self.cid)
@@ -112,10 +121,6 @@ class Custom:
 
 
 class Described(Custom):
-    def __init__(self, cid, fams, desc, log):
-        Custom.__init__(self, cid, fams, log)
-        self.desc = desc
-
     def describe(self):
         return list(self.desc)
 
@@ -129,38 +134,58 @@ class World:
     """The collector objects of one case, the abstract environment the model gets, and the call log."""
 
     def __init__(self, case):
+        from prometheus_client.metrics_core import Metric
         self.case = case
         self.log = []
         self.objs = []       # per cid: the object used for register/unregister (custom: the collector; builtin: twin)
         self.live = {}       # builtin cid -> object constructed with registry=r
-        self.env = []        # per cid: (describe or None, [canonical families])
+        self.envs = []       # successive snapshots: per cid (describe or None, [canonical families])
+        self.step_env = []   # per step of the history: index of the snapshot in force during (Nop: after) the step
+        u = {TI}
         for cid, spec in enumerate(case['colls']):
             if spec['k'] == 'custom':
-                fams = [build_family(f) for f in spec['fams']]
-                if spec['desc'] is None:
-                    o = Custom(cid, fams, self.log)
-                else:
-                    from prometheus_client.metrics_core import Metric
-                    o = Described(cid, fams, [Metric(n, '', t, u) for n, t, u in spec['desc']], self.log)
+                behaviours = []
+                for b in [spec] + list(spec.get('alts') or []):
+                    fams = [build_family(f) for f in b['fams']]
+                    desc = None if spec['desc'] is None else [Metric(n, '', t, u_) for n, t, u_ in (b['desc'] or [])]
+                    behaviours.append((desc, fams))
+                    for m in (desc or []) + fams:
+                        u.add(m.name)
+                        for s in SPEC_SUFFIXES.get(m.type, []):
+                            u.add(m.name + s)
+                    for m in fams:
+                        for s in m.samples:
+                            u.add(s.name)
+                o = (Custom if spec['desc'] is None else Described)(cid, behaviours, self.log)
             else:
                 o = self.construct(cid, spec, None)
+                for m in list(o.describe()) + list(o.collect()):
+                    u.add(m.name)
+                    for s in SPEC_SUFFIXES.get(m.type, []):
+                        u.add(m.name + s)
+                    for s in m.samples:
+                        u.add(s.name)
             self.objs.append(o)
+        self.universe = sorted(u)      # the names anything in this case can claim or expose
+        self.snapshot()
+
+    @property
+    def env(self):
+        return self.envs[-1]
+
+    def snapshot(self):
+        """Re-reads what every collector describes and collects now; returns the index of that snapshot."""
+        env = []
+        for cid, o in enumerate(self.objs):
+            o = self.live.get(cid, o)
             desc = None
             if hasattr(o, 'describe'):
                 desc = [[m.name, m.type] for m in o.describe()]
-            self.env.append((desc, [canon_family(m) for m in o.collect()]))
+            env.append((desc, [canon_family(m) for m in o.collect()]))
         del self.log[:]
-        # the names anything in this case can claim or expose
-        u = {TI}
-        for desc, fams in self.env:
-            for n, t in (desc or []) + [[f[0], f[1]] for f in fams]:
-                u.add(n)
-                for s in SPEC_SUFFIXES.get(t, []):
-                    u.add(n + s)
-            for f in fams:
-                for s in f[4]:
-                    u.add(s[0])
-        self.universe = sorted(u)
+        if not self.envs or self.envs[-1] != env:
+            self.envs.append(env)
+        return len(self.envs) - 1
 
     def construct(self, cid, spec, registry):
         cls = builtin_class(spec['cls'])
@@ -194,6 +219,12 @@ class World:
         return out
 
     def apply(self, r, op):
+        """One step of the history: a call on the registry, or a change of the collectors (op mut / created)."""
+        out = self.call(r, op)
+        self.step_env.append(self.snapshot() if op[0] in ('mut', 'created') else len(self.envs) - 1)
+        return out
+
+    def call(self, r, op):
         try:
             if op[0] == 'reg':
                 cid = op[1]
@@ -204,6 +235,12 @@ class World:
                     r.register(self.live.get(cid, self.objs[cid]))
             elif op[0] == 'unreg':
                 r.unregister(self.live.get(op[1], self.objs[op[1]]))
+            elif op[0] == 'mut':
+                o = self.objs[op[1]]
+                if isinstance(o, Custom):
+                    o.switch(op[2])
+            elif op[0] == 'created':
+                set_created(op[1])
             else:
                 r.set_target_info(dict(op[1]) if op[1] is not None else None)
             return 'ok'
@@ -233,6 +270,30 @@ class World:
                 owners[n] = 'ti'
         del self.log[:]
         return [seq, fams, owners, ti]
+
+
+def set_created(on):
+    from prometheus_client import metrics
+    (metrics.enable_created_metrics if on else metrics.disable_created_metrics)()
+
+
+class Held:
+    """The names each registered collector holds according to the property: those of the families it described
+    when it was registered (all of its successful registrations while registered), released by unregister."""
+
+    def __init__(self):
+        self.names = {}
+
+    def update(self, op, outcome, mine):
+        if outcome != 'ok':
+            return
+        if op[0] == 'reg':
+            self.names[op[1]] = self.names.get(op[1], set()) | mine
+        elif op[0] == 'unreg':
+            self.names.pop(op[1], None)
+
+    def of(self, c):
+        return self.names.get(c, set())
 
 
 class Raised:
@@ -266,20 +327,25 @@ def new_registry(case):
 TARGET_FAMILY = lambda ti: ['target', 'info', 'Target metadata', '', [[TI, ti, ONE]]]
 
 
-def step_oracle(w, auto, op, outcome, before, after):
-    """The property on one step, from public observations only.  Returns a list of violation strings."""
+def step_oracle(w, auto, held, op, outcome, before, after):
+    """The property on one step, from public observations only.  Returns a list of violation strings.
+    held (a Held) = the names each registered collector was registered under; w.claims(c, auto) = what c describes now."""
     v = []
     seq0, fams0, own0, ti0 = before
     seq1, fams1, own1, ti1 = after
     for f in fams1:
         if f[0] == 'collect() raised':
             v.append('collect() raised %s' % f[1])
+    failed = outcome != 'ok'
+    mine = w.claims(op[1], auto) if op[0] == 'reg' else set()
+    held0 = {c: set(ns) for c, ns in held.names.items()}
+    held.update(op, outcome, mine)
     # -- no two registered collectors claim one name (registered = asked by collect())
     if len(set(seq1)) != len(seq1):
         v.append('collect() asks collector(s) %s more than once' % sorted(c for c in set(seq1) if seq1.count(c) > 1))
     holder = {}
     for c in dict.fromkeys(seq1):
-        for n in w.claims(c, auto):
+        for n in held.of(c):
             if n in holder:
                 v.append('registered collectors %d and %d both claim %r' % (holder[n], c, n))
             holder[n] = c
@@ -289,21 +355,19 @@ def step_oracle(w, auto, op, outcome, before, after):
         if o != 'ti' and len(o) != 1:
             v.append('name %r looks up collectors %s' % (n, o))
     # -- a failed call raises ValueError (register, set_target_info) and changes nothing
-    failed = outcome != 'ok'
     if failed and before != after:
         what = [k for k, a, b in zip(('collect order', 'families', 'name ownership', 'target info'), before, after) if a != b]
         v.append('%s raised %s but changed the registry (%s)' % (op[0], outcome, ', '.join(what)))
     if op[0] == 'reg':
         c = op[1]
-        mine = w.claims(c, auto)
         taken = set()
         for d in seq0:
             if d != c:
-                taken |= w.claims(d, auto)
+                taken |= held0.get(d, set())
         if ti0:
             taken.add(TI)
         clash = sorted(mine & taken)
-        selfclash = c in seq0 and bool(mine)
+        selfclash = c in seq0 and bool(mine & held0.get(c, set()))
         if failed and outcome != 'ValueError':
             v.append('register raised %s' % outcome)
         if clash and not failed:
@@ -330,15 +394,21 @@ def step_oracle(w, auto, op, outcome, before, after):
             else:
                 if seq1 != [d for d in seq0 if d != c]:
                     v.append('after unregister(%d) collect() asks %s' % (c, seq1))
-                exp = {n: o for n, o in own0.items() if n not in w.claims(c, auto)}
+                exp = {n: o for n, o in own0.items() if n not in held0.get(c, set())}
                 if own1 != exp:
-                    v.append('unregister(%d) did not release all and only its names: ownership %s, expected %s' % (c, own1, exp))
+                    v.append('unregister(%d) did not release all and only the names it was registered under %s: '
+                             'ownership %s, expected %s' % (c, sorted(held0.get(c, set())), own1, exp))
         elif before != after:
             v.append('unregister of unregistered collector %d changed the registry' % c)
+    elif op[0] in ('mut', 'created'):
+        # not a call on the registry: what is registered and who owns which name cannot change
+        if [seq0, own0, ti0] != [seq1, own1, ti1]:
+            v.append('%s is no registry call but changed collect order / name ownership / target info: %s -> %s'
+                     % (op[0], [seq0, own0, ti0], [seq1, own1, ti1]))
     else:
         lab = [list(kv) for kv in sorted((op[1] or {}).items())]
         if lab:
-            clash = (not ti0) and any(TI in w.claims(d, auto) for d in seq0)
+            clash = (not ti0) and any(TI in held0.get(d, set()) for d in seq0)
             if failed and outcome != 'ValueError':
                 v.append('set_target_info raised %s' % outcome)
             if clash and not failed:
@@ -358,25 +428,108 @@ def step_oracle(w, auto, op, outcome, before, after):
 
 
 def impl(case):
-    w = World(case)
-    r = new_registry(case)
-    auto = case['auto']
-    steps, viol = [], []
-    prev = w.observe(r)
-    if case.get('init_ti'):
-        lab = [list(kv) for kv in sorted(case['init_ti'].items())]
-        if prev != [[], [TARGET_FAMILY(lab)], {TI: 'ti'}, lab]:
-            viol.append('fresh registry with target_info=%s observes as %s' % (lab, prev))
-    elif prev != [[], [], {}, []]:
-        viol.append('fresh registry observes as %s' % prev)
-    for i, op in enumerate(case['ops']):
-        out = w.apply(r, op)
-        cur = w.observe(r)
-        steps.append([out] + cur)
-        for s in step_oracle(w, auto, op, out, prev, cur):
-            viol.append('step %d %s: %s' % (i, op, s))
-        prev = cur
-    return {'steps': steps, 'viol': viol}
+    """Runs the history.  A case with envvar=True runs in a child interpreter started with
+    PROMETHEUS_DISABLE_CREATED_SERIES=true (the setting is read when prometheus_client.metrics is imported)."""
+    if case.get('envvar') and not IN_WORKER:
+        obs = worker().run(case)
+    else:
+        obs = impl_here(case)
+    remember(case, obs)
+    return obs
+
+
+def impl_here(case):
+    try:
+        w = World(case)
+        r = new_registry(case)
+        auto = case['auto']
+        held = Held()
+        steps, viol = [], []
+        prev = w.observe(r)
+        if case.get('init_ti'):
+            lab = [list(kv) for kv in sorted(case['init_ti'].items())]
+            if prev != [[], [TARGET_FAMILY(lab)], {TI: 'ti'}, lab]:
+                viol.append('fresh registry with target_info=%s observes as %s' % (lab, prev))
+        elif prev != [[], [], {}, []]:
+            viol.append('fresh registry observes as %s' % prev)
+        for i, op in enumerate(case['ops']):
+            out = w.apply(r, op)
+            cur = w.observe(r)
+            steps.append([out] + cur)
+            for s in step_oracle(w, auto, held, op, out, prev, cur):
+                viol.append('step %d %s: %s' % (i, op, s))
+            prev = cur
+        return {'steps': steps, 'viol': viol, 'envs': [[[d, f] for d, f in env] for env in w.envs], 'step_env': w.step_env}
+    finally:
+        set_created(not (case.get('envvar') and IN_WORKER))     # the setting is global to the interpreter
+
+
+# ---- child interpreter with created series disabled through the environment
+IN_WORKER = False
+_WORKER = None
+_LAST = [None, None]
+
+
+def remember(case, obs):
+    _LAST[0], _LAST[1] = case, obs
+
+
+def history_of(case, run=None):
+    """(snapshots of the collectors, snapshot index per step) observed while the implementation ran the case."""
+    if _LAST[0] is not case and _LAST[0] != case:
+        (run or impl)(case)
+    return _LAST[1]['envs'], _LAST[1]['step_env']
+
+
+class Worker:
+    def __init__(self):
+        import os
+        import subprocess
+        import sys
+        env = dict(os.environ, PROMETHEUS_DISABLE_CREATED_SERIES='true')
+        self.p = subprocess.Popen([sys.executable, '-c', 'from harness.c06 import worker_main; worker_main()'],
+                                  stdin=subprocess.PIPE, stdout=subprocess.PIPE, text=True, env=env)
+
+    def run(self, case):
+        import json
+        self.p.stdin.write(json.dumps(case) + '\n')
+        self.p.stdin.flush()
+        line = self.p.stdout.readline()
+        if not line:
+            raise RuntimeError('the child interpreter (PROMETHEUS_DISABLE_CREATED_SERIES=true) died')
+        return json.loads(line)
+
+    def close(self):
+        try:
+            self.p.stdin.close()
+            self.p.wait(timeout=5)
+        except Exception:
+            self.p.kill()
+
+
+def worker():
+    global _WORKER
+    if _WORKER is None or _WORKER.p.poll() is not None:
+        import atexit
+        _WORKER = Worker()
+        atexit.register(_WORKER.close)
+    return _WORKER
+
+
+def worker_main():
+    import json
+    import sys
+    global IN_WORKER
+    IN_WORKER = True
+    out = sys.stdout
+    sys.stdout = sys.stderr          # nothing but replies on the pipe
+    for line in sys.stdin:
+        try:
+            obs = impl_here(json.loads(line))
+        except Exception as e:
+            obs = {'steps': [], 'viol': ['child interpreter: %s: %s' % (type(e).__name__, e)], 'envs': [], 'step_env': []}
+        out.write(json.dumps(obs) + '\n')
+        out.flush()
 
 
 # ----------------------------------------------------------------------------------------------------------------
@@ -403,12 +556,16 @@ def enc_family(f, tk):
     return (f[0], Sym(f[1]), f[2], f[3], [(s[0], enc_labels(s[1]), tk.tok(s[2])) for s in f[4]])
 
 
-def enc_env(w, tk):
+def enc_env(env, tk):
     out = []
-    for cid, (desc, fams) in enumerate(w.env):
+    for cid, (desc, fams) in enumerate(env):
         d = None if desc is None else some([(n, Sym(t)) for n, t in desc])
         out.append((cid, d, [enc_family(f, tk) for f in fams]))
     return out
+
+
+def enc_envs(envs, tk):
+    return [enc_env(env, tk) for env in envs]
 
 
 def enc_op(op):
@@ -416,6 +573,8 @@ def enc_op(op):
         return (Sym('reg'), op[1])
     if op[0] == 'unreg':
         return (Sym('unreg'), op[1])
+    if op[0] in ('mut', 'created'):
+        return Sym('nop')
     return (Sym('sti'), [(k, v) for k, v in sorted((op[1] or {}).items())])
 
 
@@ -428,22 +587,35 @@ def dec_family(a, tk):
             [[d_str(s[0]), dec_labels(s[1]), tk.back.get(d_int(s[2]), '?%s' % s[2])] for s in a[4]]]
 
 
-def model_ops(case):
-    ops = [enc_op(o) for o in case['ops']]
+def model_steps(case, step_env):
+    """((snapshot-index op) ...); target info given to the constructor is a first set_target_info."""
+    steps = [(i, enc_op(o)) for i, o in zip(step_env, case['ops'])]
     if case.get('init_ti'):
-        ops = [enc_op(['sti', case['init_ti']])] + ops
-    return ops
+        steps = [(0, enc_op(['sti', case['init_ti']]))] + steps
+    return steps
 
 
 ORIG = False      # set to True to compare against the model of the pinned (unrepaired) source
 
 
+def universe_of(envs):
+    u = {TI}
+    for env in envs:
+        for desc, fams in env:
+            for n, t in (desc or []) + [[f[0], f[1]] for f in fams]:
+                u.add(n)
+                for s in SPEC_SUFFIXES.get(t, []):
+                    u.add(n + s)
+    return u
+
+
 def model(m, case):
-    w = World(case)
+    envs, step_env = history_of(case)
     tk = Tokens()
-    rep = m.call('c06_run', ORIG, case['auto'], enc_env(w, tk), model_ops(case))
+    rep = m.call('c06_run', ORIG, case['auto'], enc_envs(envs, tk), model_steps(case, step_env))
     if case.get('init_ti'):
         rep = rep[1:]
+    universe = universe_of(envs)
     steps = []
     for st in rep:
         out, c2n, n2c, fams, ti = st
@@ -455,7 +627,7 @@ def model(m, case):
             if n == TI and not ti:
                 continue
             owners[n] = 'ti' if o == 'ti' else [d_int(o[1])]
-            if n not in w.universe:
+            if n not in universe:
                 owners[n] = 'outside-universe'
         if ti:      # the implementation yields the target family whenever target info is configured
             owners.setdefault(TI, 'ti')
@@ -496,6 +668,10 @@ def classify(case, obs):
         keys.append('coll:' + (c['cls'] if c['k'] == 'builtin' else 'custom-nodesc' if c['desc'] is None else 'custom-desc'))
     if obs['steps'] and obs['steps'][-1][4]:
         keys.append('ends-with-target-info')
+    if case.get('envvar'):
+        keys.append('PROMETHEUS_DISABLE_CREATED_SERIES')
+    if len(obs.get('envs', [])) > 1:
+        keys.append('collectors-changed-during-history')
     return keys
 
 
@@ -514,6 +690,11 @@ def neighbours(case):
                 out.append(dict(case, ops=ops + [['unreg', c], ['reg', d]]))
     out.append(dict(case, ops=ops + [['sti', {'a': 'b'}]]))
     out.append(dict(case, auto=not case['auto']))
+    out.append(dict(case, ops=[['created', False]] + ops))
+    out.append(dict(case, envvar=not case.get('envvar')))
+    for c, spec in enumerate(case['colls']):
+        if spec.get('alts'):
+            out.append(dict(case, ops=ops + [['mut', c, 1], ['unreg', c]]))
     return out
 
 
@@ -521,12 +702,15 @@ def shrinks(case):
     ops = case['ops']
     for i in range(len(ops)):
         yield dict(case, ops=ops[:i] + ops[i + 1:])
-    used = {op[1] for op in ops if op[0] != 'sti'}
+    on_coll = ('reg', 'unreg', 'mut')
+    used = {op[1] for op in ops if op[0] in on_coll}
     for i in range(len(case['colls']) - 1, -1, -1):
         if i not in used and len(case['colls']) > 1:       # drop a collector no call mentions, renumbering the rest
             yield dict(case, colls=case['colls'][:i] + case['colls'][i + 1:],
-                       ops=[op if op[0] == 'sti' else [op[0], op[1] - (1 if op[1] > i else 0)] for op in ops])
+                       ops=[op if op[0] not in on_coll else [op[0], op[1] - (1 if op[1] > i else 0)] + op[2:] for op in ops])
             break
+    if case.get('envvar'):
+        yield dict(case, envvar=False)
     if case.get('init_ti'):
         yield dict(case, init_ti=None)
     for i, c in enumerate(case['colls']):
@@ -566,6 +750,11 @@ def undescribed(*fams):
     return {'k': 'custom', 'desc': None, 'fams': list(fams)}
 
 
+def changing(base, *alts):
+    """A custom collector that can be switched (op mut) to other behaviours of the same kind."""
+    return dict(base, alts=[{'desc': a['desc'], 'fams': a['fams']} for a in alts])
+
+
 def builtin(cls, name, unit='', labels=(), children=()):
     return {'k': 'builtin', 'cls': cls, 'name': name, 'unit': unit, 'labels': list(labels),
             'children': [list(c) for c in children]}
@@ -595,6 +784,34 @@ FIXED_SETS = [
                builtin('Gauge', TI)], [True]),
 ]
 TI_ON = {'a': 'b'}
+
+# collector sets with their own extra ops: (name, collectors, auto_describe, extra ops)
+DYNAMIC_SETS = [
+    # collectors whose describe() / collect() output changes between register and unregister
+    ('changing', [changing(undescribed(fam('x', 'gauge')), undescribed(fam('x_total', 'gauge'))),
+                  builtin('Gauge', 'x_total'),
+                  changing(described(fam('x', 'counter')), described(fam('x_sum', 'gauge')), described()),
+                  described(fam('x_sum', 'gauge'))],
+     True, [['mut', 0, 1], ['mut', 0, 0], ['mut', 2, 1], ['mut', 2, 2], ['sti', TI_ON]]),
+]
+CREATED_SETS = [
+    # created series switched off / on: a family keeps claiming <name>_created
+    ('created', [builtin('Counter', 'x'), builtin('Gauge', 'x_created'), builtin('Summary', 'x'),
+                 undescribed(fam('x', 'histogram')), described(fam('x_created', 'gauge'))],
+     True, [['created', False], ['created', True]]),
+]
+
+
+def scenarios(colls):
+    """a registered, b registered (or rejected), a changes, a unregistered, b and a registered again: for all a, b, changes"""
+    n = len(colls)
+    for a in range(n):
+        changes = [['mut', a, k] for k in range(1, 1 + len(colls[a].get('alts') or []))] or [['created', False]]
+        for b in range(n):
+            if a != b:
+                for ch in changes:
+                    yield [['reg', a], ['reg', b], ch, ['unreg', a], ['reg', b], ['unreg', b], ['reg', a], ['unreg', a], ['reg', b]]
+                    yield [['reg', a], ch, ['reg', a], ['reg', b], ['unreg', a], ['reg', b]]
 
 
 def op_alphabet(n):
@@ -632,6 +849,19 @@ def gen_collector(rng):
     fams = [gen_family(rng) for _ in range(rng.choice([1, 1, 1, 2, 2, 3]))]
     if rng.random() < 0.1:
         fams = []
+    c = gen_custom(rng, fams)
+    if rng.random() < 0.3:       # a collector that changes during the history
+        alts = []
+        for _ in range(rng.choice([1, 1, 2])):
+            a = gen_custom(rng, [gen_family(rng) for _ in range(rng.choice([0, 1, 1, 2]))])
+            if (a['desc'] is None) == (c['desc'] is None):
+                alts.append(a)
+        if alts:
+            c = changing(c, *alts)
+    return c
+
+
+def gen_custom(rng, fams):
     mode = rng.choice(['same', 'same', 'same', 'none', 'none', 'other', 'empty', 'more'])
     if mode == 'none':
         return undescribed(*fams)
@@ -653,13 +883,20 @@ def valid(case):
         return False
 
 
-def gen_history(rng, n, length):
+def gen_history(rng, n, length, colls=None):
     ops = []
     reg = set()
+    mutable = [i for i, c in enumerate(colls or []) if c.get('alts')]
     while len(ops) < length:
         k = rng.random()
         c = rng.randrange(n)
-        if k < 0.45:
+        if colls is not None and rng.random() < 0.12:
+            if mutable and rng.random() < 0.7:       # a (preferably registered) collector changes
+                m = rng.choice([i for i in mutable if i in reg] or mutable)
+                ops.append(['mut', m, rng.randrange(0, 1 + len(colls[m]['alts']))])
+            else:
+                ops.append(['created', rng.random() < 0.4])
+        elif k < 0.45:
             ops.append(['reg', c])
             reg.add(c)
         elif k < 0.75:
@@ -689,6 +926,17 @@ def cases(ctx):
             for depth in ((1, 2, 3) if k == 0 or ctx.thorough else (1, 2)):
                 for ops in itertools.product(alpha, repeat=depth):
                     yield {'auto': auto, 'init_ti': None, 'colls': colls, 'ops': list(ops)}
+    # collectors changing / created series toggled in the middle of a history: every history up to depth 3 over
+    # register / unregister plus the change ops, and the scenarios around one change
+    for sets, envvars in ((DYNAMIC_SETS, [False]), (CREATED_SETS, [False, True])):
+        for _name, colls, auto, extra in sets:
+            alpha = [['reg', i] for i in range(len(colls))] + [['unreg', i] for i in range(len(colls))] + extra
+            for envvar in envvars:
+                for ops in scenarios(colls):
+                    yield {'auto': auto, 'init_ti': None, 'colls': colls, 'ops': ops, 'envvar': envvar}
+                for depth in ((1, 2, 3, 4) if ctx.thorough else (1, 2, 3)):
+                    for ops in itertools.product(alpha, repeat=depth):
+                        yield {'auto': auto, 'init_ti': None, 'colls': colls, 'ops': list(ops), 'envvar': envvar}
     for case in random_cases(ctx, ctx.n(3000, 100000)):
         yield case
     # depth 4 over 4 collectors (10 ops); thorough: depth 4 over every fixed set
@@ -715,12 +963,17 @@ def random_cases(ctx, count):
     for _ in range(count):
         n = rng.randrange(1, 7)
         if rng.random() < 0.3:
-            colls = list(rng.choice(FIXED_SETS)[1])
+            colls = list(rng.choice(FIXED_SETS + DYNAMIC_SETS + CREATED_SETS)[1])
             rng.shuffle(colls)
             colls = colls[:n]
         else:
             colls = [gen_collector(rng) for _ in range(n)]
         case = {'auto': rng.random() < 0.5, 'init_ti': rng.choice([None, None, None, TI_ON]), 'colls': colls,
-                'ops': gen_history(rng, len(colls), rng.choice([3, 5, 8, 12, 20, 40]))}
+                'ops': gen_history(rng, len(colls), rng.choice([3, 5, 8, 12, 20, 40]), colls),
+                'envvar': rng.random() < 0.1}
         if valid(case):
+            if rng.random() < 0.15:
+                sc = list(scenarios(colls))
+                if sc:
+                    case['ops'] = rng.choice(sc) + case['ops'][:6]
             yield case
